@@ -57,3 +57,39 @@ Example C10_example_no_fault :
   let s := apply_with_fault 4096 1000 FErr (itrace New TmpMode P_w rho_obs_first) in
   outcome_of P_w s = CompleteValidTrace /\ stream_complete (m_fs s) Fin th_w = true /\ m_diag s = false.
 Proof. cbv zeta. repeat split; vm_compute; reflexivity. Qed.
+
+(* ==== relocation code from source (unit rtfs) ==== *)
+(* See the block of the same name in Properties_C09.v. *)
+From OV Require Rt.RtFsPre Gen.RtFs_gen Proofs.RtFsGenProofs.
+(* PARTIAL (bounded exhaustive, by evaluation): for each of 29 directory listings (the 24 orders of ". .. stream.obs
+   stream.json", listings with missing and repeated entries), also changing between the three traversals, four
+   stream sizes around the 1024-byte chunk boundary (8, 1024, 1025, 2608 bytes), and every single fault - the n-th libc
+   call returns its error value, or is a short fwrite of 0 items, for every n below 50 (the longest run makes 42 calls) -
+   the generated code (RtFsGenProofs.gen_reloc: move_thdir_to_final, then try_clean_dir) and RtFsDefs.run on the
+   instruction list relocate_new make the same calls in the same order, print a diagnostic in the same cases and do
+   not abort: every libc result is checked, a failing call leads to the model's err() and stops the later passes
+   (nothing is removed after a failed copy), it is never ignored.  RtFsGenProofs.same compares the logs call by
+   call, the diagnostic flags and the abort flags.  NOT proved: this agreement for all sizes, orders and fault
+   positions at once (the no-fault case is, C09_call_sequence_from_source); a short fwrite of c >= chunk-length items
+   is a failure for RtFsDefs.is_failure but not for the C (fwrite returned what was asked). *)
+Theorem C10_fault_handling_from_source_partial :
+  forallb (fun th => forallb (fun o => forallb (RtFsGenProofs.fam_ok 400 th (fun _ _ => o)) (RtFsGenProofs.fam_faults 50))
+                             RtFsGenProofs.fam_orders) RtFsGenProofs.fam_threads = true /\
+  forallb (fun i => forallb (RtFsGenProofs.fam_ok 400 (mkth 7 [repeat 3 1017%nat] 2 5) (RtFsGenProofs.rot i)) (RtFsGenProofs.fam_faults 50))
+          (seq 0 29) = true.
+Proof. exact (conj RtFsGenProofs.fam_same_listing RtFsGenProofs.fam_changing_listing). Qed.
+Print Assumptions C10_fault_handling_from_source_partial.
+
+(* write_evbuf (the do / while around write(2)): all bytes in one write; a failing write dies with a message; a short
+   write is followed by the write of the remaining bytes (RtFsDefs folds the two into one Write) *)
+Example C10_ex_write_evbuf :
+  (match RtFsGenProofs.ex_write_store None with
+   | RtFsPre.ROk (_, _, w) => rev (RtFsPre.w_log w) = [Write (PFile Tmp 5 Obs) [1; 2; 3; 4; 5; 6; 7; 8]] /\ RtFsPre.w_diag w = false
+   | _ => False end) /\
+  (match RtFsGenProofs.ex_write_store (Some (0%nat, FErr)) with
+   | RtFsPre.RDie w => RtFsPre.w_dead w = true /\ RtFsPre.w_diag w = true | _ => False end) /\
+  (match RtFsGenProofs.ex_write_store (Some (0%nat, FShort 3)) with
+   | RtFsPre.ROk (_, _, w) => rev (RtFsPre.w_log w) = [Write (PFile Tmp 5 Obs) [1; 2; 3]; Write (PFile Tmp 5 Obs) [4; 5; 6; 7; 8]]
+   | _ => False end).
+Proof. exact RtFsGenProofs.ex_write_evbuf. Qed.
+(* ==== end of block (unit rtfs) ==== *)
